@@ -18,6 +18,7 @@ structure Obs where
   pingsAfterQuit : Nat      -- pings recorded after close(quit) returned
   pingsAfterRet  : Nat      -- pings recorded after the goroutine returned (must be 0)
   runMs          : Nat      -- from start to close(quit) or to the failing ping
+  quitLagMs      : Nat := 0 -- from close(quit) to the return of the goroutine
   deriving Repr
 
 def holds (c : Case) (o : Obs) : Bool :=
@@ -25,7 +26,10 @@ def holds (c : Case) (o : Obs) : Bool :=
   let ideal := o.runMs / c.intervalMs
   o.returned && o.pingsAfterRet == 0 &&
   (if failed then o.pings == c.failAt && o.closes == 1       -- a dead connection is closed once, then nothing
-   else o.closes == 0 && o.pingsAfterQuit ≤ 1) &&            -- session ended: at most the one pending tick
+   else o.closes == 0 &&
+     -- session ended: at most the one pending tick - plus, when the machine delayed the goroutine, at most every
+     -- second tick that fell due before it returned (`select` picks at random between a due tick and quit)
+     o.pingsAfterQuit ≤ 1 + o.quitLagMs / (2 * c.intervalMs)) &&
   -- never more than one ping per elapsed interval (plus the one allowed after quit)
   decide (o.pings ≤ ideal + 2) &&
   -- and, unless it failed early, not far fewer (a tenth of the ticks may be lost to scheduling, plus two)
